@@ -324,10 +324,106 @@ fn c13_core(ctx: &mut Ctx) {
         let scope = if op == "reduce" { json!({"current": rand_value(&mut ctx.rng, 1), "accumulator": rand_value(&mut ctx.rng, 1)}) } else { rand_value(&mut ctx.rng, 2) };
         let e = g.rule(&mut ctx.rng, &scope, 2, 3);
         let rule = if op == "reduce" { json!({ op: [coll, e, g.rule(&mut ctx.rng, &d, 1, 2)] }) } else { json!({ op: [coll, e] }) };
-        c13_case(ctx, &rule, &d, true);
+        let out = c13_case(ctx, &rule, &d, true);
+        if i % 3 == 0 {
+            c13_self_laws(ctx, op, &rule, &d, &out);
+        }
         if i % 400 == 0 {
             ctx.sample(json!({"rule": rule, "data": d}));
         }
+    }
+}
+
+/// Model-free laws: the operator must agree with doing the same thing step by step through the
+/// implementation's own `apply` (collection first, then the element expression once per element with
+/// the element / the {current, accumulator} pair as its data). Independent of `refsem`.
+fn c13_self_laws(ctx: &mut Ctx, op: &str, rule: &Value, d: &Value, out: &Outcome) {
+    let args = match rule.get(op) {
+        Some(Value::Array(a)) => a.clone(),
+        _ => return,
+    };
+    let mon = match op {
+        "map" => "c13.map-stepwise",
+        "filter" => "c13.filter-stepwise",
+        _ => "c13.reduce-stepwise",
+    };
+    ctx.mon(mon).observed += 1;
+    // operand counts are checked when the rule is read, before anything is evaluated: a rule with a
+    // malformed operation anywhere is an error as a whole, which stepping through it cannot see
+    if crate::refsem::statically_invalid(rule) {
+        return;
+    }
+    let els: Vec<Value> = match ctx.observe(&args[0], d).out {
+        Outcome::Ok(Value::Array(a)) => a,
+        Outcome::Ok(Value::Null) => vec![],
+        _ => return, // error / non-collection: left to the model
+    };
+    // expected: Some(value) or None = "an error"; a panic in a step makes the law inapplicable
+    let mut expected: Option<Value> = None;
+    let mut failed = false;
+    match op {
+        "map" | "filter" => {
+            let mut r = Vec::new();
+            for el in els.iter() {
+                let probe = if op == "map" { args[1].clone() } else { json!({"!!": [args[1].clone()]}) };
+                match ctx.observe(&probe, el).out {
+                    Outcome::Ok(v) => {
+                        if op == "map" {
+                            r.push(v)
+                        } else if v == Value::Bool(true) {
+                            r.push(el.clone())
+                        }
+                    }
+                    Outcome::Err(_) => {
+                        failed = true;
+                        break;
+                    }
+                    Outcome::Panic(_) => return,
+                }
+            }
+            if !failed {
+                expected = Some(Value::Array(r));
+            }
+        }
+        _ => {
+            // the initial value is evaluated against the outer data
+            let mut acc = match ctx.observe(&args[2], d).out {
+                Outcome::Ok(v) => Some(v),
+                Outcome::Err(_) => None,
+                Outcome::Panic(_) => return,
+            };
+            if let Some(mut a) = acc.take() {
+                for el in els.iter() {
+                    if crate::refsem::nested_deeper_than(&a, 100) {
+                        return;
+                    }
+                    match ctx.observe(&args[1], &json!({"current": el, "accumulator": a})).out {
+                        Outcome::Ok(v) => a = v,
+                        Outcome::Err(_) => {
+                            failed = true;
+                            break;
+                        }
+                        Outcome::Panic(_) => return,
+                    }
+                }
+                if !failed {
+                    expected = Some(a);
+                }
+            }
+        }
+    }
+    ctx.mon(mon).judged += 1;
+    let ok = match (&expected, out) {
+        (Some(e), Outcome::Ok(v)) => crate::refsem::value_equiv(e, v),
+        (None, Outcome::Err(_)) => true,
+        _ => false,
+    };
+    if !ok {
+        let exp = match &expected {
+            Some(v) => json!({"ok": v}),
+            None => json!({"err": "some step is an error"}),
+        };
+        ctx.violation(mon, &format!("stepwise:{}", op), rule, d, exp, out.brief(), "the operator disagrees with evaluating its collection and then its element expression step by step through the implementation itself");
     }
 }
 
